@@ -13,13 +13,16 @@ FAM = {
     "F": ["C16", "C18", "C20"],
     "G": ["C17", "C19", "C20", "C07"],
 }
-want = set(sys.argv[1:])
+want = set(a for a in sys.argv[1:] if not a.startswith("C"))
+only_props = set(a for a in sys.argv[1:] if a.startswith("C"))  # e.g. "C20": re-run these checks only and merge
 rows, bad = [], 0
 for fam in sorted(FAM):
     if want and fam not in want:
         continue
     for patch in sorted(glob.glob(os.path.join(ROOT, "neutral", fam, "n*.diff"))):
         for pid in FAM[fam]:
+            if only_props and pid not in only_props:
+                continue
             t0 = time.time()
             r = subprocess.run([os.path.join(ROOT, "tools", "mutcheck.sh"), pid, patch], capture_output=True, text=True)
             out = r.stdout + r.stderr
@@ -34,7 +37,16 @@ for fam in sorted(FAM):
             if code != 0:
                 bad += 1
             print(f"{fam} {os.path.basename(patch):8s} {pid} {'silent' if code == 0 else 'ALARM rc=%d %s' % (code, row['alarm'])} ({row['wall_s']}s)", flush=True)
-if not want:
+if only_props and not want:
+    # merge the re-run rows into the existing table
+    path = os.path.join(ROOT, "evidence", "neutral.json")
+    old = json.load(open(path))
+    key = lambda r: (r["change"], r["property"])
+    fresh = {key(r): r for r in rows}
+    merged = [fresh.get(key(r), r) for r in old["results"]]
+    old["results"] = merged
+    json.dump(old, open(path, "w"), indent=1)
+elif not want:
     json.dump(dict(note="quick checks run on scratch copies with behaviour-preserving changes applied; every entry must be silent (exit 0)",
                    results=rows), open(os.path.join(ROOT, "evidence", "neutral.json"), "w"), indent=1)
 print(f"{len(rows) - bad}/{len(rows)} silent")
